@@ -29,7 +29,12 @@
    and every printed form of the two is identical.  Further hypotheses: the master holds no hidden
    template (nohids: true of every parsed master without deprecated definitions / include lines), canon
    is blind to word lines (true of extract_format().as_str()), and the shown part of W is in the
-   printer/parser round-trip domain dtree_ok (kept as a hypothesis; evaluated in the Example).
+   printer/parser round-trip domain dtree_ok.  That last hypothesis is discharged for parsed inputs
+   (Proofs/FetchDomain.v, C07_refetch_text_parsed): master and sources are parser outputs, no object
+   carrying merge_names (a dotted prefix) is .multiple or disabled, choice alternatives without their
+   star are printable words; then print, parse and re-fetch all succeed and give W up to word lines.
+   Both extra conditions are necessary for the domain lemma (counterexample Examples, two of them genuine
+   failures of the text round trip on the library: findings C07-reserved-shell, C07-choice-delimiter).
    fetch does not skip hidden templates in a source, so the text form (which omits them) and the object
    form coincide only inside D07 - outside they differ on the real code too (finding F7a).
    NOT proved here (decided by the correspondence stream + oracle only): "the master's own defaults as
@@ -37,7 +42,7 @@
 From Coq Require Import List Ascii String Bool Arith ZArith.
 From Phil Require Import Base Tree Vars Choice Fetch FetchBasics FetchShape FetchDisabled FetchExamples
   FetchIdemLists FetchIdemBase FetchIdem FetchIdemCopy FetchIdemNoMult FetchIdemChoice FetchIdemExamples EntryFetch EntryIdem
-  ChoiceProofs ChoiceTop Parser Show ShowProofs TreeRoundtrip ParserShape FetchReparse.
+  ChoiceProofs ChoiceTop Parser Show ShowProofs TreeRoundtrip ParserShape FetchReparse FetchDomain.
 Import ListNotations.
 
 (* W = M.fetch(S): fetching W again, as an object, gives W *)
@@ -206,3 +211,47 @@ Example C07_refetch_text_example :
   map we ex2_again = map we ex2_result /\ ex2_again <> ex2_result /\
   length ex2_result = 8 /\ length (prune ex2_result) = 6.
 Proof. exact refetch_text_example. Qed.
+
+(* ---------------------------------------------------------------- the text form for parsed inputs *)
+(* the fetch result of parsed inputs lies in the print/parse round-trip domain *)
+Theorem C07_parsed_fetch_result_in_domain : forall env canon om sm m srcs w,
+  parse om sm = Ok m -> no_deprecated_or_include m = true ->
+  Forall (fun src => exists o s, parse o s = Ok src) srcs ->
+  master_plain m -> srcs_have_dollar srcs = false ->
+  forallb merged_plain m = true -> forallb choice_alts_ok m = true ->
+  fetch env canon false m srcs = Ok w -> forallb (dtree_ok []) (shown w) = true.
+Proof. exact parsed_fetch_result_in_domain. Qed.
+Print Assumptions C07_parsed_fetch_result_in_domain.
+
+(* saving W and loading it again: printing and parsing succeed and the re-fetch gives W up to the
+   line numbers of value words, with identical printed forms *)
+Theorem C07_refetch_text_parsed : forall env canon om sm m srcs o' w width,
+  (forall k c c', optwe c c' -> canon k c = canon k c') ->
+  parse om sm = Ok m -> no_deprecated_or_include m = true ->
+  Forall (fun src => exists o s, parse o s = Ok src) srcs ->
+  D07 env canon m -> srcs_have_dollar srcs = false ->
+  forallb merged_plain m = true -> forallb choice_alts_ok m = true ->
+  fetch env canon false m srcs = Ok w ->
+  exists text l w', as_str w [] None 0 width = Ok text /\ parse o' text = Ok l /\
+             fetch env canon false m [l] = Ok w' /\ map we w' = map we w /\
+             forall p e lv wd, as_str w' p e lv wd = as_str w p e lv wd.
+Proof. exact refetch_text_parsed_total. Qed.
+Print Assumptions C07_refetch_text_parsed.
+
+(* non-vacuity: parsed master (scope, multiple scope, multiple definition, choice, dotted name) and two
+   parsed sources; every hypothesis computed *)
+Example C07_fetch_domain_example :
+  parse exd_oracle exd_master_text = Ok exd_master /\
+  parse [] exd_src1_text = Ok exd_src1 /\ parse [] exd_src2_text = Ok exd_src2 /\
+  no_deprecated_or_include exd_master = true /\
+  forallb (dtree_ok []) exd_master = true /\ master_plain exd_master /\
+  forallb merged_plain exd_master = true /\ forallb choice_alts_ok exd_master = true /\
+  srcs_have_dollar [exd_src1; exd_src2] = false /\
+  forallb (forallb defs_words_ok) [exd_src1; exd_src2] = true /\
+  fetch ex_env ex_canon false exd_master [exd_src1; exd_src2] = Ok exd_result /\
+  forallb (dtree_ok []) (shown exd_result) = true /\
+  length exd_result = 9 /\ length (shown exd_result) = 7 /\
+  as_str exd_result [] None 0 None = Ok exd_text /\ parse [] exd_text = Ok exd_parsed /\
+  fetch ex_env ex_canon false exd_master [exd_parsed] = Ok exd_again /\
+  map we exd_again = map we exd_result /\ exd_again <> exd_result.
+Proof. exact fetch_domain_example. Qed.
